@@ -89,7 +89,11 @@ def _solve(matrix_f):
 
 # ---------------------------------------------------------------- real geometries
 def _geoms(inp):
-    return [gen_geom.to_data(g) for g in inp["source"]], [gen_geom.to_data(g) for g in inp["target"]]
+    src = [gen_geom.to_data(g) for g in inp["source"]]
+    if inp.get("alias"):
+        # the very same list object on both sides (inp["target"] repeats inp["source"])
+        return src, src
+    return src, [gen_geom.to_data(g) for g in inp["target"]]
 
 
 def _impl_match(inp):
@@ -446,7 +450,10 @@ def _grid_geom(rng):
     if r < 0.8:
         return _interval(s, s + w)
     if r < 0.9:
-        return _stamp(s)
+        # quarter offsets: with time_buffer 1/4 or 1/2 different instants overlap partially
+        return _stamp(s + rng.choice([0, 0, Fraction(1, 4), Fraction(1, 2)]))
+    if r < 0.93:
+        return {"type": "Point", "coordinates": [rat(s + rng.choice([0, Fraction(1, 4)])), rat(Fraction(rng.choice([1000, 1000, 1001])))]}
     return gen_geom.gen_valid(rng, rng.choice(["Point", "LineString", "Polygon", "MultiPoint"]), tmax=4, fmax=4, k=1)
 
 
@@ -464,8 +471,22 @@ def _grid_cases(rng, count, nmax, nmin=0):
         pool = [_grid_geom(rng) for _ in range(rng.randint(1, 4))]
         src = [rng.choice(pool) if rng.random() < 0.5 else _grid_geom(rng) for _ in range(n)]
         tgt = [rng.choice(pool) if rng.random() < 0.5 else _grid_geom(rng) for _ in range(m)]
+        if n and m and rng.random() < 0.12:
+            # a sliver: two intervals (or boxes) overlapping by 2^-33 s (affinity about 6e-11, far above the tolerance)
+            t0 = rng.choice([0, 3, 20])
+            eps = Fraction(1, 2 ** rng.choice([20, 33]))
+            if rng.random() < 0.5:
+                a, b = _interval(t0, t0 + 1), _interval(t0 + 1 - eps, t0 + 2)
+            else:
+                a, b = _box(t0, 0, t0 + 1, 1000), _box(t0 + 1 - eps, 0, t0 + 2, 1000)
+            src[rng.randrange(n)] = a
+            tgt[rng.randrange(m)] = b
         tb, fb = _buffers(rng, src + tgt)
-        yield {"source": src, "target": tgt, "tb": tb, "fb": fb}
+        case = {"source": src, "target": tgt, "tb": tb, "fb": fb}
+        if n and rng.random() < 0.06:
+            # the same list object on both sides (zero buffers make instants and points degenerate: affinity 0 with themselves)
+            case = {"source": src, "target": src, "tb": rng.choice([tb, "0"]), "fb": rng.choice([fb, "0"]), "alias": True}
+        yield case
 
 
 _POOL = [_box(0, 0, 1, 1000), _box(0, 0, 2, 1000), _box(1, 0, 2, 1000), _box(5, 0, 6, 1000), _interval(0, 1),
@@ -530,8 +551,11 @@ def _random_matrices(rng, count, nmax):
             pool = ["0", "0", "1/4", "1/2", "1"]
         elif style < 0.6:
             pool = ["0", "1"]
-        elif style < 0.8:
+        elif style < 0.7:
             pool = ["0"] + [rat(Fraction(rng.randint(0, 16), 16)) for _ in range(3)]
+        elif style < 0.8:
+            # tiny but positive affinities (slivers): every one of them counts
+            pool = ["0", "1/1099511627776", "1/1073741824", "1/1048576", "1/2", "1"]
         else:
             pool = None
         vals = [rng.choice(pool) if pool else rat(Fraction(rng.randint(0, 1024), 1024)) for _ in range(n * m)]
@@ -718,7 +742,7 @@ def _stage_symbolic(ctx):
     for n, m in shapes:
         asgs = list(_contract_assignments(n, m))
         if n * m >= 9 and not ctx.thorough():
-            asgs = [asgs[0], asgs[-1], asgs[ctx.rng.randrange(len(asgs))]]
+            asgs = [asgs[0], asgs[-1], asgs[1 + ctx.rng.randrange(len(asgs) - 2)]]
         for asg in asgs:
             _sym_one(ctx, n, m, asg)
             count += 1
@@ -784,6 +808,7 @@ def _stage_matrices(ctx, nmax):
                                             if ctx.rng.random() < 0.2))
         ctx.exhaustive["match_matrix"] = ("all n x m matrices with n*m <= 6, (n, m) in {0..3}^2, entries in {0, 1/4, 1/2, 1}; "
                                           "a fifth of all 3 x 3 matrices over {0, 1/2, 1}")
+    ctx.run_cases(OPS["match_matrix"], _exhaustive_matrices(["0", "1/1073741824", "1"], 4, dims=2))
     ctx.run_cases(OPS["match_matrix"], _random_matrices(ctx.rng, ctx.budget(1500, 12000), nmax))
     # beyond the brute force: optimality by certificate
     ctx.run_cases(OPS["match_matrix"], _random_matrices(ctx.rng, ctx.budget(250, 1500), ctx.budget(12, 25)))
